@@ -282,7 +282,7 @@ fn batch_case(ctx: &Ctx, rep: &mut Report, id: usize, k: usize, pat: usize, leg:
                 pr[i] = bump(&proofs[i], &di);
                 pr[j] = bump(&proofs[j], &dj);
                 <P as Gx>::probe_arm();
-                let r = no_panic(|| verify_many(&ts, &sts, &pr, VerifyAction::VerifyOnly));
+                let r = no_panic(|| verify_many(&ts, &sts, &pr, if pat % 4 == 0 { VerifyAction::VerifyOnly } else { VerifyAction::RecoverAndVerify }));
                 let w = <P as Gx>::probe_take_weights(&bs);
                 rep.count("adaptive_cancelling_rounds", 1);
                 if let Ok(Ok(_)) = r {
